@@ -34,7 +34,7 @@ func (g *Gen) header(cexArrays []string) string {
 	var b strings.Builder
 	b.WriteString(preludeText(cexArrays != nil))
 	b.WriteString(g.m.structDecls())
-	b.WriteString(g.m.litDecls())
+	b.WriteString(g.m.litDecls(cexArrays != nil))
 	for _, d := range g.m.extraDecl {
 		b.WriteString(d + "\n")
 	}
